@@ -7,7 +7,7 @@ from ..coqterm import *
 
 ID = "C13"
 RUNNER = "C13"
-COQ_IMPORTS = "Model.PickleVM Model.PickleIn Check.C13check"
+COQ_IMPORTS = "Model.PickleVM Model.PickleIn Model.PyPickle Check.C13check"
 CASE_TYPE = "c13_case"
 VERDICT = "c13_verdict"
 EXPECTED = None
@@ -53,7 +53,8 @@ def bits_of(x):
 
 
 INTS = [0, 1, 5, 42, 255, 256, 65535, 65536, 1500000000, 2 ** 31 - 1]
-BIGINTS = [2 ** 31, 2 ** 32 + 5, 2 ** 63, 2 ** 64 + 1, 2 ** 40, -2 ** 31 - 1, -2 ** 40, 2 ** 1030]
+BIGINTS = [2 ** 31, 2 ** 32 + 5, 2 ** 63, 2 ** 64 + 1, 2 ** 40, -2 ** 31 - 1, -2 ** 40, 2 ** 1000, -2 ** 1015]
+HUGE = 2 ** 1030          # 129 bytes as LONG1: the length byte is above 127
 NEGINTS = [-1, -5, -255, -65536, -2 ** 31]
 FLOATS = [1.5, 0.0, -0.0, 3.14159, 1e16, 1e-7, 123456789.123456789, 2.5, 3.5, 1e300, 4.9e-324, 0.1, -17.25, float("inf"), float("-inf"), float("nan"),
           1500000000.5, 1500000000.0, 0.5, 1.0000005]
@@ -70,6 +71,8 @@ def gen_scalar(rng, role, feat):
             pool = BIGINTS[:6]
         if role == "val" and "big_val" in feat and rng.random() < .5:
             pool = BIGINTS
+        if role == "ts" and "huge_long" in feat and rng.random() < .4:
+            return {"k": "i", "v": str(HUGE)}
         return {"k": "i", "v": str(rng.choice(pool) if rng.random() < .8 else rng.randrange(0, 2 ** 31))}
     if r < .8:
         x = rng.choice(FLOATS) if rng.random() < .6 else rng.uniform(-1e6, 1e6)
@@ -247,12 +250,22 @@ def float_probes(stream):
     return [t.hex() for t in out]
 
 
-def make_case(rng, tier, feat=(), corrupt=None, mode=None, py2=False, nframes=None, big=False):
+def make_case(rng, tier, feat=(), corrupt=None, mode=None, py2=False, nframes=None, big=False, modelable=False):
     frames, events, bounds, descs = [], [], [0], []
     nframes = nframes or rng.choice([1, 1, 2, 3, 4])
     for _ in range(nframes):
         n = rng.choice([0, 1, 1, 2, 3, 5, 8]) if not big else rng.choice([90, 300, 1001, 1200])
         items = [gen_item(rng, feat) for _ in range(n)]
+        if modelable:
+            # the shapes Model/PyPickle.v describes: tuples, fresh unicode names, 0 <= int < 2^31 or float, protocol 2/3
+            items = [d for d in items if "bad" not in d]
+            for d in items:
+                d["outer"] = d["inner"] = "t"
+                if len(bytes.fromhex(d["name"]["v"]).decode("utf-8")) < 2:
+                    d["name"]["v"] = b"ab".hex()
+                for k in ("ts", "val"):
+                    if d[k]["k"] == "s" or (d[k]["k"] == "i" and not 0 <= int(d[k]["v"]) < 2 ** 31):
+                        d[k] = {"k": "i", "v": str(rng.choice(INTS))}
         if py2:
             items = [d for d in items if "bad" not in d]
             for d in items:
@@ -260,13 +273,13 @@ def make_case(rng, tier, feat=(), corrupt=None, mode=None, py2=False, nframes=No
             proto = rng.choice([0, 1, 2])
             p = py2_pickle(items, proto, rng)
         else:
-            proto = rng.choice([0, 1, 2, 3, 4])
+            proto = rng.choice([0, 1, 2, 3, 4]) if not modelable else rng.choice([2, 3])
             if "latin1_p0" in feat:
                 proto = 0
-            share = {} if rng.random() < .3 else None
+            share = {} if rng.random() < .3 and not modelable else None
             p = pickle.dumps([py_item(d, share) for d in items], protocol=proto)
         frames.append(frame(p))
-        descs.append({"proto": proto, "py2": py2, "items": items})
+        descs.append({"proto": proto, "py2": py2, "items": items, "pickle": p.hex() if modelable else None})
         events.append([spec_event(d) for d in items])
         bounds.append(bounds[-1] + len(frames[-1]))
     stream = b"".join(frames)
@@ -277,6 +290,9 @@ def make_case(rng, tier, feat=(), corrupt=None, mode=None, py2=False, nframes=No
         for fd in descs:
             if feat[0] == "bytes_name" and fd["proto"] >= 3 and any("bad" not in d and d["name"]["k"] == "b" for d in fd["items"]):
                 kerr = True              # BINBYTES / SHORT_BINBYTES are unknown opcodes: the connection ends here
+                break
+            if feat[0] == "huge_long" and fd["proto"] >= 2 and any("bad" not in d and d["ts"]["v"] == str(HUGE) for d in fd["items"]):
+                kerr = True              # LONG1 with a length byte above 127: nothing is read, the payload is taken for opcodes
                 break
             kev += [spec_event(d, feat[0], fd["proto"]) for d in fd["items"]]
         known = {"events": [e.hex() if e is not None else None for e in kev], "err": kerr}
@@ -329,13 +345,29 @@ def gen(rng, tier):
             cases.append(make_case(rng, tier))
     for k in range(4 if tier == "quick" else 60):
         cases.append(make_case(rng, tier, big=True, nframes=1, mode=rng.choice(["whole", "rand"])))
+    for k in range(30 if tier == "quick" else 300):
+        cases.append(make_case(rng, tier, modelable=True, big=(k % 15 == 14)))
     for feat in FEATS:
         for _ in range(6 if tier == "quick" else 40):
             cases.append(make_case(rng, tier, feat=(feat,)))
     return cases
 
 
-FEATS = ["neg_int", "big_val", "latin1_p0", "bytes_name"]
+FEATS = ["neg_int", "big_val", "latin1_p0", "bytes_name", "huge_long"]
+
+
+def pynum_coq(d):
+    return "(PyInt %s)" % cN(int(d["v"])) if d["k"] == "i" else "(PyFloat %s)" % cN(int(d["v"]))
+
+
+def pymodel_coq(case):
+    out = []
+    for fd in case["frames"]:
+        if fd.get("pickle"):
+            ds = clist(["{| d_name := %s; d_ts := %s; d_val := %s |}" % (cbytes(bytes.fromhex(d["name"]["v"])), pynum_coq(d["ts"]), pynum_coq(d["val"]))
+                        for d in fd["items"]], "pydp")
+            out.append(ctuple(cN(fd["proto"]), ds, cbytes(bytes.fromhex(fd["pickle"]))))
+    return clist(out, "(N * list pydp * bytes)")
 
 
 def ev_coq(e):
@@ -350,9 +382,9 @@ def to_coq(case, obs):
     spec = None
     if case["spec"] is not None:
         spec = ctuple(clist([ev_coq(e) for e in case["spec"]["events"]], "ev"), cbool(case["spec"]["err"]))
-    return ("{| p_stream := %s; p_floats := %s; p_events := %s; p_err := %s; p_spec := %s; p_prefix := %s |}"
+    return ("{| p_stream := %s; p_floats := %s; p_events := %s; p_err := %s; p_spec := %s; p_prefix := %s; p_py := %s |}"
             % (cbytes(stream), floats, evs, cbool(obs["err"]), copt(spec, "(list ev * bool)"),
-               clist([ev_coq(e) for e in case["prefix"]], "ev")))
+               clist([ev_coq(e) for e in case["prefix"]], "ev"), pymodel_coq(case)))
 
 
 def nontrivial_key(case, obs):
@@ -406,6 +438,12 @@ def shrink(case):
 
 
 MANIFEST = {
-    "text": "placeholder",
-    "note": "placeholder",
+    "text": "Theorems (Props/C13.v): decoding (og-rek machine model) what CPython's pickler writes in protocol 2/3 (Gallina model of the pickler, "
+            "compared byte for byte with pickle.dumps on every run) gives back the datapoints, and a connection of any number of such frames hands "
+            "on exactly the equivalent plain-text lines in order (induction over items and frames); per-item conversion and invalid-item counting. "
+            "Tie: real input.NewPickle(d).Handle behind a scripted reader, fed CPython pickles of protocols 0-4, Python-2 style pickles, corrupted "
+            "frames, every segmentation; expected lines computed from the Python-level data.",
+    "note": "partial: protocols 0, 1 and 4, str/long fields, shared objects and segmentation are covered by the differential run against the VM model "
+            "and the Python-level expectation, not by the round-trip theorem (protocol 2/3, non-negative int32 and float fields). bufio and og-rek are "
+            "library code modelled in Model/PickleVM.v. Four library-level defects are recorded as known findings. Trusted: Coq kernel+VM.",
 }
